@@ -35,7 +35,7 @@ PROBES = ["fault_free_runs", "files_structurally_compared", "adjusted_rules_mask
           "fault:eacces-in", "fault:eio-in", "fault:eio-close-out", "dir_invocation", "file_invocation", "cwd_is_tree", "bystanders_checked",
           "feat:opaque-atrules", "feat:odd-strings", "feat:vendor-hacks", "feat:star-hack", "feat:crlf", "feat:bom", "feat:cdo-cdc",
           "feat:non-ascii", "feat:nesting", "feat:vars", "feat:unicode-seps", "feat:dup-root", "feat:nested-root", "feat:dup-selectors", "feat:comment-in-value", "feat:stale-charset", "feat:css-nesting", "feat:own-colour-elsewhere", "noarg_invocation", "glue_comment_needed", "report_written", "stale_output_overwritten",
-          "cm_named_stylesheet_as_file_argument", "cm_named_stylesheet_as_bystander", "symlinked_stylesheet_input", "real_interpreter_non_utf8_locale_runs", "tmpdir_on_other_filesystem_runs", "invoked_from_non_main_thread", "second_invocation_in_process:delete-out", "second_invocation_in_process:foreign-out", "second_invocation_in_process:keep"]
+          "cm_named_stylesheet_as_file_argument", "cm_named_stylesheet_as_bystander", "symlinked_stylesheet_input", "real_interpreter_non_utf8_locale_runs", "tmpdir_on_other_filesystem_runs", "invoked_from_non_main_thread", "second_invocation_in_process:delete-out", "second_invocation_in_process:foreign-out", "second_invocation_in_process:keep", "runs_with_a_dozen_untunable_rules"]
 
 C09_FEATURES = gen.ALL_FEATURES
 _NAMES = ("a.css", "b.css", "main.css", "thème.css", "my style.css", "reset.min.css", "the\u0300me.css")  # (composed and decomposed è)
@@ -73,6 +73,15 @@ def generate(rseed, tier, idx):
         feats = gen.draw_features(g, feats_pool, 0.4)
         ast = gen.gen_sheet(g, feats, settings, max_rules=4)
         tree[rel] = {"k": "css", "ast": ast, "text": gen.render(ast), "feats": feats}
+    if g.random() < 0.06:
+        # VOLUME on the failure side: a dozen or more rules that cannot be tuned (undefined custom properties without a
+        # fallback), so that the "needs attention" list is long
+        rel = g.choice(sorted(tree))
+        for k in range(g.randint(11, 16)):
+            tree[rel]["ast"]["items"].append({"t": "rule", "sel": ".unfixable%d" % k, "decls": [
+                {"p": "color", "v": "var(--nowhere-%d)" % k, "imp": ""}, {"rawdecl": "margin: 0"}]})
+        tree[rel]["text"] = gen.render(tree[rel]["ast"])
+        tree[rel]["many_failures"] = True
     inputs = sorted(tree)
     # bystanders nothing may touch
     by = {"notes.txt": "keep me\n", "x.css.bak": ".b{color:#777}\n", "other_cm.css": ".stale{color:#777}\n", "sub/data.json": "{}",
@@ -325,6 +334,8 @@ def execute(trace):
         n_open = res["n_open"]
         events.append(("free", res["exit"], res["out"], res["err"], res["io"], sorted((k, base.digest(v)) for k, v in after.items())))
         bump("fault_free_runs")
+        if any(v.get("many_failures") for v in trace["tree"].values()):
+            bump("runs_with_a_dozen_untunable_rules")
         bump("dir_invocation" if trace["inv"]["form"] == "dir" else "file_invocation")
         if cwd_rel != "cwd":
             bump("cwd_is_tree")
